@@ -3,7 +3,7 @@
     All statements quantify over every schedule (list of step labels, including further calls,
     stop() and start()), every worker count and every queue capacity. *)
 From Coq Require Import List Bool.
-From VB Require Import Conc.ValidatorDefs Conc.ValidatorProofs Conc.ValidatorProgress Conc.ValidatorTermination Conc.RingDefs Conc.RingProofs.
+From VB Require Import Conc.ValidatorDefs Conc.ValidatorProofs Conc.ValidatorProgress Conc.ValidatorTermination Conc.RingDefs Conc.RingProofs Gen.ValidatorParams Conc.ValidatorLimits Conc.CheckedDefs Conc.CheckedProofs.
 Import ListNotations.
 
 (** whenever checkPopData has returned, its verdict is the sequential one: the index of the first
@@ -91,3 +91,37 @@ Theorem C16_ring_refines_fifo_partial : forall (A : Type) (size : nat) (ops : li
   2 <= size -> ring_run A ops (ring_init A size) = fifo_run A size ops [].
 Proof. exact ring_refines_fifo_init. Qed.
 Print Assumptions C16_ring_refines_fifo_partial.
+
+(** the premise "each call posts at most qcap tasks" of C16_no_assert_fires is met by the code's own capacity:
+    upper_power_of_two(maxWorkerQueueSize()) - the sum as written in alt_chain_params.hpp, regenerated into
+    Gen/ValidatorParams.v on every run - is at least the payload count of any PopData that passes the count limits
+    of checkPopData, whatever the configured limits and however few workers share the load *)
+Theorem C16_qcap_fits_limits : forall max_atvs max_vtbs max_vbk n_atvs n_vtbs n_vbk,
+  popdata_within_limits max_atvs max_vtbs max_vbk n_atvs n_vtbs n_vbk ->
+  n_vbk + n_vtbs + n_atvs <= code_qcap max_atvs max_vtbs max_vbk.
+Proof. exact qcap_fits_limits_lemma. Qed.
+Print Assumptions C16_qcap_fits_limits.
+
+Theorem C16_call_within_limits_sizes_ok : forall max_atvs max_vtbs max_vbk vs dup n_atvs n_vtbs n_vbk,
+  popdata_within_limits max_atvs max_vtbs max_vbk n_atvs n_vtbs n_vbk ->
+  length vs = n_vbk + n_vtbs + n_atvs ->
+  sizes_ok (code_qcap max_atvs max_vtbs max_vbk) (LCall vs dup) = true.
+Proof. exact call_within_limits_sizes_ok. Qed.
+Print Assumptions C16_call_within_limits_sizes_ok.
+
+(** the `checked` flags written by the workers into the caller's payloads (set only after a complete success):
+    checking the same PopData object any number of times, a copy of it taken after a check, or a fresh
+    deserialisation (all flags cleared) always reports the sequential verdict of the payloads themselves *)
+Theorem C16_checked_flags_transparent : forall pd n m k,
+  flags_sound pd ->
+  Forall (fun v => v = spec_verdict pd) (check_n n pd) /\
+  Forall (fun v => v = spec_verdict pd) (check_n k (fresh_copy pd)) /\
+  (forall pd', pd' = snd (check_call pd) -> Forall (fun v => v = spec_verdict pd) (check_n m pd')).
+Proof. exact checked_flags_transparent_lemma. Qed.
+Print Assumptions C16_checked_flags_transparent.
+
+(** a PopData on which no flag has been set yet satisfies the premise *)
+Theorem C16_no_flags_sound : forall l dup,
+  flags_sound (mkPopData (map (fun v => mkPayload v false) l) dup false).
+Proof. exact no_flags_sound. Qed.
+Print Assumptions C16_no_flags_sound.
